@@ -252,8 +252,8 @@ fn build_new(s: &Script, bufsize: usize) -> Result<Vec<u8>, String> {
 /// below 16384, and the names must be what the script pushed; judged by
 /// reading `m` with both codecs
 fn judge(m: &[u8], want: &Value) -> Value {
-    let o = catch_unwind(AssertUnwindSafe(|| wire_new::old_view(m, &[])["msg"].clone())).unwrap_or(json!({"panic": true}));
-    let n = catch_unwind(AssertUnwindSafe(|| wire_new::new_view(m, &[])["msg"].clone())).unwrap_or(json!({"panic": true}));
+    let o = catch_unwind(AssertUnwindSafe(|| wire_new::old_view(m, &[], &wire_new::Mask::none())["msg"].clone())).unwrap_or(json!({"panic": true}));
+    let n = catch_unwind(AssertUnwindSafe(|| wire_new::new_view(m, &[], &wire_new::Mask::none())["msg"].clone())).unwrap_or(json!({"panic": true}));
     json!({
         "old_reads": o["end"] == json!("done") && &lower_items(&o) == want,
         "new_reads": n["end"] == json!("done") && &lower_items(&n) == want,
